@@ -492,8 +492,11 @@ func checkBlame(c *checkCtx, s *wsSpec, w []int, impl string) {
 			Replay: map[string]any{"spec": s.loxText, "tokens": w, "parser": impl}})
 		return
 	}
-	if i < 0 {
-		return // returned false without delivering an Error: allowed
+	if i < 0 || !acc {
+		// returned false: the property's first alternative. (An Error that was built and shifted belongs to a
+		// production that was never completed when parse() gives up, so it reaches no action; the Errors that
+		// did reach one are then later ones.)
+		return
 	}
 	// "first" is read in INPUT order, i.e. the Error that was built first (token positions only grow while the
 	// parser advances): actions run at reduce time, so in a right-recursive rule such as  s = A @error s  the
